@@ -515,10 +515,18 @@ def _cat(eng, st, args, kwargs):
 
 
 # --------------------------------------------------------------------------- futures
+TENSOR_STATE = ('val', 'shape', 'dtype', 'device', 'contig')
+
+
 @method('new', 'Future')
 def _future_new(eng, st, recv, args, kwargs):
+    """torch.futures.Future(): the value it will hold is a prophecy -- a tensor object allocated now whose
+    abstract state is unconstrained until set_result() resolves it."""
+    p = eng.alloc(st, 'Tensor')
+    eng.write_field(st, p, 'grad', NONE, cls='Tensor')
+    eng.write_field(st, p, 'sid', V(KInt, fresh_sid(eng, st)), cls='Tensor')
     f = eng.alloc(st, 'Future')
-    eng.write_field(st, f, 'will_be', eng.fresh(KRef('Tensor'), 'prophecy'), cls='Future')
+    eng.write_field(st, f, 'will_be', p, cls='Future')
     eng.write_field(st, f, 'resolved', BoolV(False), cls='Future')
     return f
 
@@ -541,7 +549,17 @@ def _value_list(eng, st, recv, args, kwargs):
 
 @method('Future', 'set_result')
 def _set_result(eng, st, recv, args, kwargs):
-    eng.write_field(st, recv, 'will_be', args[0], cls='Future')
+    """Resolution of the prophecy: from here on the prophesied tensor has the abstract state of the actual
+    result (assume; sound because a future is resolved at most once -- torch raises otherwise -- and nothing
+    else constrains the prophecy).  The heap is not written: values derived from the prophecy when call-backs
+    were attached (S8) are thereby determined."""
+    (x,) = args
+    p = eng.read_field(st, recv, 'will_be', cls='Future')
+    for f_ in TENSOR_STATE:
+        a, b = tf(eng, st, p, f_), tf(eng, st, x, f_)
+        eng.fact(st, a.term == b.term)
+    eng.assumptions.add('S8b: a torch future is resolved at most once; set_result(x) makes the prophesied tensor equal to x '
+                        'in value, shape, dtype, device (object identity of the result is not tracked)')
     return NONE
 
 
@@ -633,3 +651,71 @@ def _pad(eng, st, args, kwargs):
     nsh = _set_dim(_set_dim(sh, n - 1, lo.at(sh, n - 1) + l + r), n - 2, lo.at(sh, n - 2) + t + b)
     val = mf('pad', M, I, I, I, I, M)(tv(eng, st, x), l, r, t, b)
     return like(eng, st, x, val, shape=V(KShape, nsh))
+
+
+# --------------------------------------------------------------------------- flatten / unflatten (bucketed allreduce)
+def _arr(eng, st, fname):
+    key, kind = eng.field_decl('Tensor', fname)
+    return eng.heap_array(st, key, kind)
+
+
+def _flat_fns(eng, st):
+    LT = KList(KRef('Tensor')).sort()
+    AV, AS = _arr(eng, st, 'val').sort(), _arr(eng, st, 'shape').sort()
+    return LT, AV, AS
+
+
+@builtin('kfac.distributed.flatten', 'torch._utils._flatten_dense_tensors')
+def _flatten(eng, st, args, kwargs):
+    """One contiguous 1-D tensor holding the elements of all tensors of the list, in order."""
+    (ts,) = args
+    if not (isinstance(ts.kind, KList) and isinstance(ts.kind.elem, KRef)):
+        raise Unsupported('flatten of a non-list')
+    LT, AV, AS = _flat_fns(eng, st)
+    hv, hs, hd = _arr(eng, st, 'val'), _arr(eng, st, 'shape'), _arr(eng, st, 'dtype')
+    val = z3.Function('m_flatten', LT, AV, M)(ts.term, hv)
+    n = z3.Function('flat_numel', LT, AS, I)(ts.term, hs)
+    dt = z3.Function('flat_dtype', LT, hd.sort(), I)(ts.term, hd)
+    lo = ListOps(ts.kind)
+    eng.fact(st, lo.len(ts.term) >= 0)
+    eng.require(st, lo.len(ts.term) > 0, 'RuntimeError', 'flatten of an empty list')
+    first = V(KRef('Tensor'), lo.at(ts.term, z3.IntVal(0)))
+    eng.assumptions.add('flatten(ts) concatenates the elements of ts in order (type-promoting like torch.cat); unflatten is its '
+                        'inverse layout change; all_reduce acts element-wise (axiom U1)')
+    new = new_tensor(eng, st, val, shape_list(eng, [n]), V(KDType, dt), tf(eng, st, first, 'device'))
+    # flatten([t]) is a view of t: writes to the result (an in-place all_reduce) are writes to t.  The model
+    # returns t itself in that case (its shape is not the flat shape, which only the event's numel reads).
+    eng.fact(st, z3.Implies(lo.len(ts.term) == 1, z3.And(val == tv(eng, st, first), n == numel(eng, tf(eng, st, first, 'shape').term),
+                                                         dt == tf(eng, st, first, 'dtype').term)))
+    return V(KRef('Tensor'), z3.If(lo.len(ts.term) == 1, first.term, new.term))
+
+
+@builtin('kfac.distributed.unflatten', 'torch._utils._unflatten_dense_tensors')
+def _unflatten(eng, st, args, kwargs):
+    """List of new tensors (views of flat) with the shapes of `ts` and flat's dtype."""
+    flat, ts = args
+    LT, AV, AS = _flat_fns(eng, st)
+    hv, hs = _arr(eng, st, 'val'), _arr(eng, st, 'shape')
+    lo = ListOps(ts.kind)
+    n = lo.len(ts.term)
+    piece = z3.Function('m_piece', M, LT, I, M)
+    fv, fdt, fdev, fsid = tv(eng, st, flat), tf(eng, st, flat, 'dtype').term, tf(eng, st, flat, 'device').term, tf(eng, st, flat, 'sid').term
+    tst, hs0 = ts.term, hs
+    out = eng.alloc_block(st, 'Tensor', n, {
+        'val': lambda i: piece(fv, tst, i),
+        'shape': lambda i: z3.Select(hs0, lo.at(tst, i)),
+        'dtype': lambda i: fdt, 'device': lambda i: fdev, 'sid': lambda i: fsid,
+        'contig': lambda i: z3.BoolVal(True), 'grad': lambda i: z3.IntVal(0),
+    })
+    # U1: a piece of the element-wise sum of the flattened buffer is the sum of the corresponding tensor
+    key = 'U1'
+    if key not in eng.uf_cache:
+        eng.uf_cache[key] = True
+        L, H, S, g, i = z3.Const('uL', LT), z3.Const('uH', AV), z3.Const('uS', AS), z3.Const('ug', Vm.SetIntS), z3.Int('ui')
+        allsum = mf('allsum', M, Vm.SetIntS, M)
+        flatten = z3.Function('m_flatten', LT, AV, M)
+        lhs = piece(allsum(flatten(L, H), g), L, i)
+        eng.facts.append(z3.ForAll([L, H, g, i], z3.Implies(z3.And(i >= 0, i < ListOps(ts.kind).len(L)),
+                                                               lhs == allsum(z3.Select(H, ListOps(ts.kind).at(L, i)), g)),
+                                   patterns=[lhs]))
+    return out
